@@ -205,6 +205,10 @@ def explore(mod, ctx, cases, chunk=None, jobs=None, sample_every=None, batch=250
                             agg.viols[fp] = {"msg": msg, "detail": detail,
                                              "case": part[idx - base], "index": idx, "count": 1}
             base += n
+        if pool is not None:
+            pool.close()        # normal end: let the workers exit by themselves (a coverage tracer can then save its data)
+            pool.join()
+            pool = None
     finally:
         if pool is not None:
             pool.terminate()
